@@ -256,9 +256,9 @@ fn gen_spec(ch: &mut Choices, bad: &mut bool) -> Spec {
             6 => ch.u8() as i8,
             _ => -8,
         };
-        let fde_enc = if eh { ch.pick(&[0x00u8, 0x1b, 0x1b, 0x1c, 0x03, 0x0b, 0x04, 0x01, 0x09, 0x19, 0x11, 0x0c, 0x09]) } else { ch.pick(&[0u8, 0, 0, 0x1b, 0x03]) };
-        let lsda_enc = if ch.chance(100) { Some(ch.pick(&[0x00u8, 0x1b, 0x03, 0x0b, 0x04, 0x01, 0x09, 0x19, 0x0c])) } else { None };
-        let personality = if ch.chance(70) { Some((ch.pick(&[0x00u8, 0x1b, 0x9b, 0x03, 0x01, 0x09, 0x89, 0x0c, 0x19]), ch.pick(&[0x10000u64, 0x2000, 0x40, 0x12340, 0x30_0000]) + ch.biased(12))) } else { None };
+        let fde_enc = if eh { ch.pick(&[0x00u8, 0x1b, 0x1b, 0x1c, 0x03, 0x0b, 0x04, 0x01, 0x09, 0x19, 0x11, 0x0c, 0x09, 0x13, 0x12, 0x13]) } else { ch.pick(&[0u8, 0, 0, 0x1b, 0x03]) };
+        let lsda_enc = if ch.chance(100) { Some(ch.pick(&[0x00u8, 0x1b, 0x03, 0x0b, 0x04, 0x01, 0x09, 0x19, 0x0c, 0x13, 0x12])) } else { None };
+        let personality = if ch.chance(70) { Some((ch.pick(&[0x00u8, 0x1b, 0x9b, 0x03, 0x01, 0x09, 0x89, 0x0c, 0x19, 0x13, 0x12, 0x93]), ch.pick(&[0x10000u64, 0x2000, 0x40, 0x12340, 0x30_0000]) + ch.biased(12))) } else { None };
         let ra = ch.pick(&[16u16, 0, 30, 127, 128, 255]);
         let n = ch.count(4);
         let mut instrs = Vec::new();
@@ -340,6 +340,17 @@ fn check_spec(s: &Spec, expect_refusal: bool, cx: &mut Ctx) -> R {
             w.add_instruction(*o, to_wi(i));
         }
         table.add_fde(ids[f.cie], w);
+    }
+    {
+        // the table's own counts: one entry per distinct CIE, one per FDE added
+        let mut distinct: Vec<&SCie> = Vec::new();
+        for c in &s.cies {
+            if !distinct.contains(&c) {
+                distinct.push(c);
+            }
+        }
+        ensure_eq!(table.cie_count(), distinct.len(), "c14/cie_count");
+        ensure_eq!(table.fde_count(), s.fdes.len(), "c14/fde_count");
     }
     let endian = if s.big { RunTimeEndian::Big } else { RunTimeEndian::Little };
     let res = if s.eh {
